@@ -70,7 +70,8 @@ type Run struct {
 	// Nodes: answers of the beacon node(s).  With Provider "direct" only
 	// Nodes[0] is used; with a strategy there is one entry per node.
 	Nodes []NodeData `json:"nodes"`
-	// Fault: "" | "accounts-error" | "sign-error" | "zero-sigs" | "no-account" | "submit-error"
+	// Fault: "" | "accounts-error" (the by-index lookup fails) | "accounts-epoch-error" (the
+	// whole-epoch lookup fails) | "accounts-error-both" | "sign-error" | "zero-sigs" | "no-account" | "submit-error"
 	// (a failing data fetch is Nodes[i].Err).
 	Fault string `json:"fault,omitempty"`
 	Mask  []bool `json:"mask,omitempty"` // per Vals entry: zero signature / no account
@@ -90,7 +91,9 @@ type Case struct {
 	// "first" | "best" | "majority" (real strategy in front of node doubles).
 	Provider string `json:"provider"`
 	NodesN   int    `json:"nodes_n"`
-	Ops      []Op   `json:"ops"`
+	// Pool: the account manager holds accounts for validators 0..Pool-1 (and any other validator of the history).
+	Pool int  `json:"pool,omitempty"`
+	Ops  []Op `json:"ops"`
 }
 
 // ---------------------------------------------------------------------------
@@ -194,6 +197,7 @@ func decodeSig(s phase0.BLSSignature) (v uint64, seq int, d [32]byte, ok bool) {
 type world struct {
 	mu   sync.Mutex
 	runs []*Run // flattened
+	pool int
 
 	signReqs []signReq
 	submits  []submitRec
@@ -296,19 +300,22 @@ func (n *node) Address() string { return fmt.Sprintf("node%d:5052", n.idx) }
 
 type accountsProvider struct{ w *world }
 
-func (p *accountsProvider) ValidatingAccountsForEpoch(context.Context, phase0.Epoch) (map[phase0.ValidatorIndex]e2wtypes.Account, error) {
-	return map[phase0.ValidatorIndex]e2wtypes.Account{}, nil
+// universe is the set of validators the account manager holds active accounts
+// for: the whole pool of the history, not just the validators of one duty.
+func (p *accountsProvider) universe() map[uint64]bool {
+	u := map[uint64]bool{}
+	for v := 0; v < p.w.pool; v++ {
+		u[uint64(v)] = true
+	}
+	for _, r := range p.w.runs {
+		for _, v := range r.Vals {
+			u[v.V] = true
+		}
+	}
+	return u
 }
 
-func (p *accountsProvider) ValidatingAccountsForEpochByIndex(ctx context.Context, _ phase0.Epoch, indices []phase0.ValidatorIndex) (map[phase0.ValidatorIndex]e2wtypes.Account, error) {
-	run := runOf(ctx)
-	if run < 0 || run >= len(p.w.runs) {
-		return nil, errors.New("accounts double: call outside a run")
-	}
-	r := p.w.runs[run]
-	if r.Fault == "accounts-error" {
-		return nil, errors.New("scripted accounts failure")
-	}
+func (p *accountsProvider) missing(r *Run) map[uint64]bool {
 	missing := map[uint64]bool{}
 	if r.Fault == "no-account" {
 		for i, v := range r.Vals {
@@ -317,6 +324,38 @@ func (p *accountsProvider) ValidatingAccountsForEpochByIndex(ctx context.Context
 			}
 		}
 	}
+	return missing
+}
+
+func (p *accountsProvider) ValidatingAccountsForEpoch(ctx context.Context, _ phase0.Epoch) (map[phase0.ValidatorIndex]e2wtypes.Account, error) {
+	run := runOf(ctx)
+	if run < 0 || run >= len(p.w.runs) {
+		return nil, errors.New("accounts double: call outside a run")
+	}
+	r := p.w.runs[run]
+	if r.Fault == "accounts-epoch-error" || r.Fault == "accounts-error-both" {
+		return nil, errors.New("scripted accounts failure (whole epoch)")
+	}
+	missing := p.missing(r)
+	res := map[phase0.ValidatorIndex]e2wtypes.Account{}
+	for v := range p.universe() {
+		if !missing[v] {
+			res[phase0.ValidatorIndex(v)] = newAccount(v)
+		}
+	}
+	return res, nil
+}
+
+func (p *accountsProvider) ValidatingAccountsForEpochByIndex(ctx context.Context, _ phase0.Epoch, indices []phase0.ValidatorIndex) (map[phase0.ValidatorIndex]e2wtypes.Account, error) {
+	run := runOf(ctx)
+	if run < 0 || run >= len(p.w.runs) {
+		return nil, errors.New("accounts double: call outside a run")
+	}
+	r := p.w.runs[run]
+	if r.Fault == "accounts-error" || r.Fault == "accounts-error-both" {
+		return nil, errors.New("scripted accounts failure (by index)")
+	}
+	missing := p.missing(r)
 	res := map[phase0.ValidatorIndex]e2wtypes.Account{}
 	for _, i := range indices {
 		if !missing[uint64(i)] {
@@ -516,8 +555,15 @@ func (g *genState) genNodeData(t *rapid.T, slot uint64) NodeData {
 		}
 	case "target-above":
 		nd.TargetEpoch = epoch + rapid.SampledFrom([]uint64{1, 2, 1000}).Draw(t, "targetAbove")
+		if rapid.IntRange(0, 3).Draw(t, "targetBoundary") == 0 {
+			// values at the conversion boundaries of a 64-bit epoch (FAR_FUTURE_EPOCH is what nodes send for "not set")
+			nd.TargetEpoch = rapid.SampledFrom([]uint64{1<<63 - 1, 1 << 63, 1<<63 + 1, 1<<64 - 2, 1<<64 - 1}).Draw(t, "targetHuge")
+		}
 	case "source-above":
 		nd.SourceEpoch = nd.TargetEpoch + rapid.Uint64Range(1, 3).Draw(t, "sourceAbove")
+		if rapid.IntRange(0, 2).Draw(t, "sourceBoundary") == 0 {
+			nd.SourceEpoch = rapid.SampledFrom([]uint64{1<<32 + 1, 1<<63 - 1, 1 << 63, 1<<63 + nd.TargetEpoch, 1<<63 + nd.TargetEpoch + 1, 1<<64 - 2, 1<<64 - 1}).Draw(t, "sourceHuge")
+		}
 	case "mixed":
 		nd.Slot = slot + 1
 		if epoch > 0 {
@@ -557,7 +603,7 @@ func (g *genState) script(t *rapid.T, r *Run) {
 			r.Nodes[len(r.Nodes)-1].Err = false
 		}
 	}
-	r.Fault = rapid.SampledFrom([]string{"", "", "", "", "", "accounts-error", "sign-error", "zero-sigs", "no-account", "submit-error"}).Draw(t, "fault")
+	r.Fault = rapid.SampledFrom([]string{"", "", "", "", "", "accounts-error", "accounts-error", "accounts-epoch-error", "accounts-error-both", "sign-error", "zero-sigs", "no-account", "submit-error"}).Draw(t, "fault")
 	r.Mask = nil
 	if r.Fault == "zero-sigs" || r.Fault == "no-account" {
 		for range r.Vals {
@@ -617,7 +663,7 @@ func genCase(t *rapid.T, provider string) Case {
 		nodesN:   1,
 		provider: provider,
 	}
-	c := Case{SlotsPerEpoch: g.spe, Provider: provider, NodesN: 1}
+	c := Case{SlotsPerEpoch: g.spe, Provider: provider, NodesN: 1, Pool: g.pool}
 	if provider != "direct" {
 		g.nodesN = rapid.IntRange(1, 4).Draw(t, "nodesN")
 		if provider == "first" && g.nodesN > 2 {
@@ -733,7 +779,7 @@ func runCase(c *Case) (*observation, error) {
 	}
 	ctx, cancel := context.WithCancel(context.Background())
 	defer cancel()
-	w := &world{dataOut: map[int][]*phase0.AttestationData{}, barriers: map[int]*barrier{}}
+	w := &world{dataOut: map[int][]*phase0.AttestationData{}, barriers: map[int]*barrier{}, pool: c.Pool}
 	for i := range c.Ops {
 		for j := range c.Ops[i].Runs {
 			w.runs = append(w.runs, &c.Ops[i].Runs[j])
